@@ -98,10 +98,14 @@ def rand_case(rng, depth):
     return {"entry": entry, "excl": excl, "doc": doc, "_kinds": sorted(kinds)}
 
 
-def execute(ctx, binary, cases, tag):
+def execute(ctx, binary, cases, tag, conc=None):
+    """run mode: one event per case, in order.  conc=(workers, millis): concurrent mode, one event per distinct output of a worker"""
     d = ctx.sub("run-" + tag)
     cp, tp = os.path.join(d, "cases.json"), os.path.join(d, "trace.ndjson")
     json.dump([{k: v for k, v in c.items() if not k.startswith("_")} for c in cases], open(cp, "w"))
+    if conc:
+        ctx.run_harness(binary, ["conc", cp, tp, str(conc[0]), str(conc[1])])
+        return read_ndjson(tp)
     ctx.run_harness(binary, ["run", cp, tp])
     ev = read_ndjson(tp)
     if len(ev) != len(cases):
@@ -148,20 +152,106 @@ def judge(ctx, binary, cases, events, tag, seen):
             seen.add(key)
             if nontrivial(e):
                 ctx.cov["distinct_nontrivial"] += 1
-    reported = {}
+    reported, done_h = {}, set()
     for i in sorted(rej):
         w = witness_of(events[i], rej[i])
-        if reported.get(w["class"], 0) >= 6:         # a few replayable witnesses per failing class are enough
+        h = cases[i].get("h", 0)
+        if reported.get(w["class"], 0) >= 6 or (h and h in done_h):     # a few replayable witnesses per failing class are enough
             continue
         reported[w["class"]] = reported.get(w["class"], 0) + 1
-        c = {k: v for k, v in cases[i].items() if not k.startswith("_")}
-        c["id"] = 0
-        ev2 = execute(ctx, binary, [c], tag + "-repro")
+        if h:       # re-execute with the bodies that went through the same object before it
+            done_h.add(h)
+            j = i
+            while j > 0 and cases[j - 1].get("h", 0) == h:
+                j -= 1
+            k = i + 1 if cases[i].get("pair") == "req" else i
+            hist = [dict({x: v for x, v in c.items() if not x.startswith("_")}, id=n, h=1) for n, c in enumerate(cases[j:k + 1])]
+        else:
+            hist = [dict({x: v for x, v in cases[i].items() if not x.startswith("_")}, id=0)]
+        ev2 = execute(ctx, binary, hist, tag + "-repro")
         d2 = judge_cases_detail(ctx, SPEC, "ObfTrace", ev2, tag + "-repro")
         if not d2:
             raise Broken("rejection not reproduced (%s): %s" % (tag, json.dumps(events[i])[:800]))
-        ctx.violation(witness_of(ev2[0], d2[0]), {"case": c, "event": ev2[0]})
+        n = min(d2)
+        w2 = witness_of(ev2[n], d2[n])
+        if h:
+            w2["class"] += "-in-a-history-on-one-obfuscator-object"
+            w2["bodies_before"] = [[c["entry"], ev2[m]["in"][:80]] for m, c in enumerate(hist[:n])]
+        ctx.violation(w2, {"history": hist, "events": ev2, "rejected": sorted(d2)})
     return rej
+
+
+def relabel(doc, rng):
+    """a copy of the document with the same structure and other leaf values (response of the same API as the request)"""
+    if doc["k"] == "leaf":
+        return leaf(rng)
+    if doc["k"] == "arr":
+        return dict(doc, f=[relabel(c, rng) for c in doc["f"]])
+    return dict(doc, f=[[k, relabel(c, rng)] for k, c in doc["f"]])
+
+
+def rand_history(rng, depth):
+    """bodies of one or more transactions handled by ONE obfuscator object of the HAR collector (object history), or the request
+    and response body of one transaction exported by the collector's generateHAR (pair); one exclusion list for all of them"""
+    docs = [rand_doc(rng, rng.randint(1, depth))]
+    for _ in range(rng.randint(1, 4)):
+        docs.append(relabel(rng.choice(docs), rng) if rng.random() < 0.6 else rand_doc(rng, rng.randint(1, depth)))
+    paths = [p for d in docs for p in node_paths(d)]
+    excl = []
+    for _ in range(rng.choice([1, 1, 2, 2, 3])):
+        x, _ = rand_excl(rng, paths, "har_request")
+        excl.append(x)
+    if rng.random() < 0.5:
+        return [dict(entry="har_request", excl=excl, doc=docs[0], pair="req"), dict(entry="har_response", excl=excl, doc=docs[1], pair="resp")]
+    out, e = [], "har_request"
+    for d in docs:
+        out.append(dict(entry=e, excl=excl, doc=d))
+        e = "har_response" if e == "har_request" or rng.random() < 0.3 else "har_request"
+    return out
+
+
+def big_cases(rng, n):
+    """large documents (several hundred KB) with an excluded subtree of long strings, one per worker, each tagged with its worker"""
+    cases = []
+    for w in range(n):
+        tag = "<w%02d>" % w
+        big = {"k": "arr", "t": "", "times": rng.choice([24, 48]),
+               "f": [{"k": "leaf", "t": "s", "f": [], "v": tag, "rep": rng.choice([4096, 8192])}]}
+        small = {"k": "obj", "t": "", "f": [["id", {"k": "leaf", "t": "n", "f": [], "v": str(w)}],
+                                             ["name", {"k": "leaf", "t": "s", "f": [], "v": "name-of-%d" % w}]]}
+        doc = {"k": "obj", "t": "", "f": [["keep", big if w % 4 else {"k": "obj", "t": "", "f": [["items", big], ["user", small]]}],
+                                          ["secret", {"k": "leaf", "t": "s", "f": [], "v": "secret-of-%02d" % w}], ["user", small]]}
+        entry = ["json", "json", "har_request", "har_response", "legacy_request"][w % 5]
+        n_ = {"json": ["plain", "request", "response"][w % 3], "har_request": "request", "har_response": "response",
+              "legacy_request": "plain"}[entry]
+        cases.append({"id": w, "entry": entry, "excl": [{"n": n_, "segs": ["keep"]}, {"n": n_, "segs": ["user", "id"]}], "doc": doc})
+    return cases
+
+
+def judge_conc(ctx, binary, cases, workers, millis):
+    """concurrent obfuscation: every distinct output of every worker is judged by ObfTrace against the worker's own document"""
+    events = execute(ctx, binary, cases, "conc", conc=(workers, millis))
+    calls = sum(e["calls"] for e in events)
+    rej = judge_cases_detail(ctx, SPEC, "ObfTrace", events, "conc", chunk=400)
+    ctx.cov["evaluations"] += calls
+    ctx.cov["traces_validated_against_impl"] += sum(e["calls"] for i, e in enumerate(events) if i not in rej)
+    if rej:
+        i = min(rej)
+        for attempt in range(20):      # concurrent: the rejection must show again on a new run
+            ev2 = execute(ctx, binary, cases, "conc-repro", conc=(workers, millis))
+            d2 = judge_cases_detail(ctx, SPEC, "ObfTrace", ev2, "conc-repro", chunk=400)
+            if d2:
+                n = min(d2)
+                w = witness_of(ev2[n], d2[n])
+                w["class"] += "-under-concurrent-obfuscation"
+                w["worker"], w["workers"], w["attempts"] = ev2[n]["worker"], workers, attempt + 1
+                ctx.violation(w, {"conc": cases, "workers": workers, "millis": millis, "event": ev2[n]})
+                break
+        else:
+            raise Broken("concurrent rejection not reproduced in 20 attempts: %s" % json.dumps(events[i])[:600])
+    ctx.log("concurrent: %d workers, %d calls on %d large documents, %d distinct outputs, %d rejected" % (
+        workers, calls, len(cases), len(events), len(rej)))
+    return calls, events, rej
 
 
 def gen_cases(ctx, cfg):
@@ -216,6 +306,19 @@ def run(ctx):
     cases = []
     for g in gens:
         cases += gen_cases(ctx, g)
+    # the HAR collector cases go through one obfuscator object per exclusion set, request body first then the response body
+    # of the same document (as generateHAR does), eight bodies per object
+    har = sorted((c for c in cases if c["entry"].startswith("har_")),
+                 key=lambda c: (json.dumps(c["excl"], sort_keys=True), json.dumps(c["doc"], sort_keys=True), c["entry"]))
+    cases = [c for c in cases if not c["entry"].startswith("har_")]
+    h, last, n = 0, None, 0
+    for c in har:
+        k = json.dumps(c["excl"], sort_keys=True)
+        if k != last or n >= 8:
+            h, last, n = h + 1, k, 0
+        c["h"] = h
+        n += 1
+    cases += har
     for i, c in enumerate(cases):
         c["id"] = i
     events = execute(ctx, binary, cases, "gen")
@@ -250,6 +353,24 @@ def run(ctx):
     ctx.sample({"kind": "random-case", "entry": events[k]["entry"], "exclusions": events[k]["excl_strings"], "in": events[k]["in"][:300],
                 "out": events[k]["out"][:300]})
 
+    # (3b) histories on one obfuscator object (several bodies in a row; request + response body of one generateHAR call)
+    hc = []
+    for k in range(500 if not T else 5000):
+        for c in rand_history(ctx.rng, depth):
+            hc.append(dict(c, id=len(hc), h=k + 1))
+    events = execute(ctx, binary, hc, "hist")
+    rej = judge(ctx, binary, hc, events, "hist", seen)
+    ctx.log("histories on one obfuscator object: %d bodies in %d histories (%d generateHAR pairs), %d rejected" % (
+        len(hc), hc[-1]["h"], sum(1 for c in hc if c.get("pair") == "req"), len(rej)))
+    ctx.notes.append("bodies obfuscated in histories on one obfuscator object / by one generateHAR call: %d random + the generated HAR cases" % len(hc))
+
+    # (3c) concurrent obfuscation of large documents with excluded subtrees: per-call judgement
+    workers = 32
+    calls, cev, _ = judge_conc(ctx, binary, big_cases(ctx.rng, workers), workers, 1200 if not T else 8000)
+    if calls < 4 * workers and not ctx.violations:
+        raise Broken("concurrent stage made only %d calls (vacuous)" % calls)
+    ctx.notes.append("concurrent obfuscation: %d calls by %d goroutines on documents of 100-400 KB" % (calls, workers))
+
     # (4) binding self-test: corrupted recordings of accepted cases must be rejected by the spec
     src = [json.loads(json.dumps(e)) for i, e in enumerate(gen_events) if i not in gen_rej and nontrivial(e)][:400]
     bad = []
@@ -282,13 +403,22 @@ def run(ctx):
 def replay(ctx, path):
     obj = json.load(open(path))
     binary = ctx.build_harness("c16")
-    c = obj["replay"]["case"]
-    ev = execute(ctx, binary, [c], "replay")
-    print(json.dumps(ev[0]))
-    d = judge_cases_detail(ctx, SPEC, "ObfTrace", ev, "replay")
+    r = obj["replay"]
+    if "conc" in r:
+        for attempt in range(20):
+            ev = execute(ctx, binary, r["conc"], "replay", conc=(r["workers"], r["millis"]))
+            d = judge_cases_detail(ctx, SPEC, "ObfTrace", ev, "replay", chunk=400)
+            if d:
+                break
+    else:
+        ev = execute(ctx, binary, r.get("history") or [r["case"]], "replay")
+        d = judge_cases_detail(ctx, SPEC, "ObfTrace", ev, "replay")
+        for e in ev:
+            print(json.dumps({k: e[k] for k in ("entry", "excl_strings", "in", "out", "shape")})[:1500])
     if d:
+        n = min(d)
         print("VIOLATION property=C16 replay=%s" % path)
-        print("   witness: %s" % json.dumps(witness_of(ev[0], d[0]))[:600])
+        print("   witness: %s" % json.dumps(witness_of(ev[n], d[n]))[:600])
         return 1
     print("replay accepted by the specification")
     return 0
